@@ -243,7 +243,9 @@ class Sched:
             d = self.replay.get((-1, 0, "p"))
             first = d[1] if d is not None else 0
         else:
-            first = self.rng.randrange(self.n)
+            first = self.params.get("first")
+            if first is None:
+                first = self.rng.randrange(self.n)
             self.decisions.append([-1, 0, "first", first])
         self.cur = first
         self.ev[first].release()
